@@ -40,6 +40,7 @@ pub fn templates() -> Vec<Template> {
         t(Request, 0, b"POST /x?y=z HTTP/1.0\nA: b\n\n"),
         t(Request, 0, b"\r\n\nOPTIONS * HTTP/1.1\r\nA-b:  v w \t\r\nC:\r\n\r\nbody"),
         t(Request, 0, b"GET /\xc3\xa9\xe2\x82\xac HTTP/1.1\r\nK: \x80\xffv\r\n\r\n"),
+        t(Request, 0, b"GET /\xf0\x9f\x98\x80x\xf4\x8f\xbf\xbf HTTP/1.1\r\n\r\n"),
         t(Request, 0, b"PUT /p HTTP/1.1\r\nLonger-Name-Of-Forty-Bytes-Abcdefghijklm: 0123456789012345678901234567890123456789\r\n\r\n"),
         t(Request, C_MULTI_REQ, b"GET   /a   HTTP/1.1\r\nH: v\r\n\r\n"),
         t(Request, C_IGNORE_REQ, b"GET / HTTP/1.1\r\nbad line\r\nOk: 1\r\n: x\r\n\r\n"),
@@ -107,7 +108,7 @@ fn quick_templates(q: bool) -> Vec<Template> {
     let all = templates();
     if q {
         // one of each flavour
-        [0usize, 2, 3, 6, 9, 13, 15, 18, 20, 22, 25].iter().map(|&i| all[i].clone()).collect()
+        [0usize, 2, 3, 4, 7, 10, 14, 16, 19, 21, 23, 26].iter().map(|&i| all[i].clone()).collect()
     } else {
         all
     }
@@ -545,6 +546,76 @@ pub fn add_pair_sweeps(p: &mut Plan, q: bool, backends: &[Backend], names: &[&st
         p.phases.push(Phase { label: format!("S2b: all 65536 byte pairs at adjacent positions of {} fields, lengths {:?}", fields.len(), lens), backend: b, tasks });
     }
     p.bounds.push(format!("S2b pairs: every (x, y) in 256x256 at positions (i, i+1) of fields {:?}, run lengths {:?}, backends {:?}", fields.iter().map(|f| f.name).collect::<Vec<_>>(), lens, backends.iter().map(|b| b.name()).collect::<Vec<_>>()));
+}
+
+/// Whitespace runs of every length 0..=40 (four SP/HTAB patterns) at every place of the grammars
+/// where a run may or may not occur: fast paths that skip blanks in blocks depend on the run length.
+pub fn add_whitespace_run_sweep(p: &mut Plan, _q: bool) {
+    struct Slot {
+        entry: Entry,
+        cfg: u8,
+        pre: &'static [u8],
+        post: &'static [u8],
+    }
+    let slots: Vec<Slot> = vec![
+        Slot { entry: Entry::ReqCfg, cfg: 0, pre: b"GET / HTTP/1.1\r\nConnection:", post: b"close\r\n\r\n" },
+        Slot { entry: Entry::ReqCfg, cfg: 0, pre: b"GET / HTTP/1.1\r\nConnection: close", post: b"\r\nB: 1\r\n\r\n" },
+        Slot { entry: Entry::ReqCfg, cfg: 0, pre: b"GET / HTTP/1.1\r\nA:", post: b"\r\n\r\n" },
+        Slot { entry: Entry::Headers, cfg: 0, pre: b"A:", post: b"v\n\n" },
+        Slot { entry: Entry::Headers, cfg: 0, pre: b"A: x", post: b"y\nB:1\n\n" },
+        Slot { entry: Entry::RespCfg, cfg: 0, pre: b"HTTP/1.1 200 OK\r\nName", post: b": v\r\n\r\n" },
+        Slot { entry: Entry::RespCfg, cfg: C_SPACES_AFTER_NAME, pre: b"HTTP/1.1 200 OK\r\nName", post: b": v\r\n\r\n" },
+        Slot { entry: Entry::RespCfg, cfg: C_SPACES_AFTER_NAME, pre: b"HTTP/1.1 200 OK\r\nName", post: b":v\r\n\r\n" },
+        Slot { entry: Entry::RespCfg, cfg: C_SPACE_BEFORE_FIRST, pre: b"HTTP/1.1 200 OK\r\n", post: b"A: b\r\n\r\n" },
+        Slot { entry: Entry::ReqCfg, cfg: C_SPACE_BEFORE_FIRST | C_IGNORE_REQ, pre: b"GET / HTTP/1.1\r\n", post: b"\r\nA: b\r\n\r\n" },
+        Slot { entry: Entry::RespCfg, cfg: C_FOLDING, pre: b"HTTP/1.1 200 OK\r\nF: a\r\n", post: b"b\r\n\r\n" },
+        Slot { entry: Entry::RespCfg, cfg: C_FOLDING, pre: b"HTTP/1.1 200 OK\r\nF:\r\n", post: b"\r\n\r\n" },
+        Slot { entry: Entry::ReqCfg, cfg: 0, pre: b"GET", post: b"/ HTTP/1.1\r\n\r\n" },
+        Slot { entry: Entry::ReqCfg, cfg: C_MULTI_REQ, pre: b"GET", post: b"/ HTTP/1.1\r\n\r\n" },
+        Slot { entry: Entry::ReqCfg, cfg: C_MULTI_REQ, pre: b"GET /", post: b"HTTP/1.1\r\n\r\n" },
+        Slot { entry: Entry::RespCfg, cfg: 0, pre: b"HTTP/1.1", post: b"200 OK\r\n\r\n" },
+        Slot { entry: Entry::RespCfg, cfg: C_MULTI_RESP, pre: b"HTTP/1.1", post: b"200 OK\r\n\r\n" },
+        Slot { entry: Entry::RespCfg, cfg: C_MULTI_RESP, pre: b"HTTP/1.1 200", post: b"OK\r\n\r\n" },
+        Slot { entry: Entry::RespCfg, cfg: 0, pre: b"HTTP/1.1 200", post: b"OK\r\n\r\n" },
+        Slot { entry: Entry::RespCfg, cfg: 0, pre: b"HTTP/1.1 200 OK", post: b"\r\n\r\n" },
+        Slot { entry: Entry::Chunk, cfg: 0, pre: b"1f", post: b";x\r\n" },
+        Slot { entry: Entry::Chunk, cfg: 0, pre: b"1f", post: b"\r\n" },
+        Slot { entry: Entry::ReqCfg, cfg: 0, pre: b"", post: b"GET / HTTP/1.1\r\n\r\n" },
+    ];
+    let n = slots.len();
+    let mut tasks: Vec<TaskFn> = Vec::new();
+    for sl in slots {
+        tasks.push(Box::new(move |ck: &mut Checker| {
+            let lane = Lane::new(sl.entry, sl.cfg, 4);
+            let mut buf = Vec::new();
+            for l in 0..=40usize {
+                for pat in 0..4 {
+                    buf.clear();
+                    buf.extend_from_slice(sl.pre);
+                    for i in 0..l {
+                        buf.push(match pat {
+                            0 => b' ',
+                            1 => b'\t',
+                            2 => if i % 2 == 0 { b' ' } else { b'\t' },
+                            _ => if i == 0 { b'\t' } else { b' ' },
+                        });
+                    }
+                    buf.extend_from_slice(sl.post);
+                    one_shot(ck, &lane, &buf);
+                    // and every prefix that ends inside or right after the run
+                    let end = sl.pre.len() + l;
+                    for k in sl.pre.len()..=end.min(buf.len()) {
+                        one_shot(ck, &lane, &buf[..k]);
+                    }
+                    if ck.full() {
+                        return;
+                    }
+                }
+            }
+        }));
+    }
+    p.phases.push(Phase { label: format!("S2c: whitespace runs of length 0..=40 × 4 SP/HTAB patterns at {} grammar positions (full and cut inside the run)", n), backend: Backend::Native, tasks });
+    p.bounds.push(format!("S2c whitespace runs: length 0..=40, patterns SP* / HTAB* / alternating / HTAB SP*, at {} positions (after the colon, before the line end, before the colon, before the first header, inside folds, request- and status-line delimiters, chunk size, message start), complete and cut inside the run", n));
 }
 
 /// UTF-8 in the request target: every sequence of <= 4 bytes over a boundary alphabet of UTF-8
